@@ -209,6 +209,12 @@ func metaState(ms *MetadataStore) string {
 	}
 	sort.Strings(vc)
 	fmt.Fprintf(&sb, "credentials=%v\n", vc)
+	// alias-key disclosures of a contact group (index fields; no getter exists)
+	if idx, ok := ms.Index().(*metadataStoreIndex); ok {
+		idx.lock.RLock()
+		fmt.Fprintf(&sb, "alias own-sent=%v other=%s\n", idx.ownAliasKeySent, hx(idx.otherAliasKey))
+		idx.lock.RUnlock()
+	}
 	return sb.String()
 }
 
